@@ -662,7 +662,8 @@ def run_property(module, tier, base_seed, build_info, nproc=None,
     ti = 0 if tier == "quick" else 1
     nproc = nproc or min(16, os.cpu_count() or 1)
     violations = []        # (subname, case, msg)
-    histories = {}         # subname -> cases evaluated before a failure
+    histories = {}         # (subname, failing case) -> cases evaluated
+    #                        before it in its own worker
     known_lines = Counter()
     errors = []
 
@@ -737,8 +738,8 @@ def run_property(module, tier, base_seed, build_info, nproc=None,
             s["status"] = "violation"
             for case, msg in r.get("failures") or [r["failure"]]:
                 violations.append((r["sub"], case, msg))
-            if r.get("history"):
-                histories.setdefault(r["sub"], r["history"])
+                if r.get("history"):
+                    histories[(r["sub"], canon(case))] = r["history"]
         elif r["status"] == "inconclusive" and s["status"] == "ok":
             s["status"] = "inconclusive"
 
@@ -776,22 +777,30 @@ def run_property(module, tier, base_seed, build_info, nproc=None,
             if confirmed is not None:
                 break
         hist = ()
-        if confirmed is None and histories.get(subname):
-            # the smallest failing case holds in a fresh process: does it
-            # fail after the cases evaluated before it in the worker (state
-            # kept between calls by the code under test)?
-            k, case, msg = lst[0]
-            try:
-                red = minimise_history(module, subname, histories[subname],
-                                       case)
-            except Exception as e:
-                red = None
-                errors.append((subname, f"history replay raised {e!r}"))
-            if red is not None:
-                hist, confirmed = red
-                confirmed = (f"[only after {len(hist)} earlier call(s) in "
-                             f"the same process, saved as 'history'] "
-                             + confirmed)
+        if confirmed is None:
+            # the failing cases hold in a fresh process: do they fail after
+            # the cases evaluated before them in their worker (state kept
+            # between calls by the code under test)?
+            ntry = 0
+            seen_h = set()
+            for k, case_h, msg_h in lst:
+                h = histories.get((subname, canon(case_h)))
+                if not h or canon(case_h) in seen_h or ntry >= 6:
+                    continue
+                seen_h.add(canon(case_h))
+                ntry += 1
+                try:
+                    red = minimise_history(module, subname, h, case_h)
+                except Exception as e:
+                    red = None
+                    errors.append((subname, f"history replay raised {e!r}"))
+                if red is not None:
+                    hist, confirmed = red
+                    case = case_h
+                    confirmed = (f"[only after {len(hist)} earlier call(s) "
+                                 "in the same process, saved as 'history'] "
+                                 + confirmed)
+                    break
         if confirmed is None:
             # nothing reproduced from the saved inputs: not reported as a
             # violation (state leak / flakiness is a harness matter)
